@@ -45,6 +45,12 @@ fn programs(n: usize, seed: u64) -> Vec<Value> {
         json!([{"op": "sstore", "s": 1, "v": 1}, {"op": "pad", "n": 3000, "b": 0}]),
         json!([{"op": "log", "t": [1]}, {"op": "pad", "n": 1200, "b": 1}]),
     ];
+    // the hand-written list runs as a whole, once (shard 0: seed = 100 * run seed + shard); the other shards draw random programs
+    let fixed = v.len();
+    if seed % 100 != 0 {
+        v.clear();
+    }
+    let n = if seed % 100 == 0 { n.max(fixed) } else { n };
     let mut rng = StdRng::seed_from_u64(seed);
     while v.len() < n {
         let len = rng.random_range(1..6);
